@@ -96,6 +96,7 @@ type RunResult struct {
 	Ends        map[string]int
 	EndSamples  map[string][]string
 	Violations  []*Violation
+	Witnesses   []*Violation // inputs of paths that ended BLOCKED / UNWIND / BUDGET
 	ViolCount   map[string]int
 	Reached     map[string]int
 	Funcs       map[string]bool
@@ -225,6 +226,20 @@ func (i *interpreter) runPath(entry *ssa.Function, prefix []int) (res PathResult
 		switch r := r.(type) {
 		case pathEnd:
 			res.End, res.Msg = r.kind, r.msg
+			if r.kind == "BLOCKED" || r.kind == "UNWIND" || r.kind == "BUDGET" {
+				// a witness input for the path that deadlocks / does not terminate within the bound
+				if m, sr := c.finalModel(nil); sr == smt.Sat {
+					kind := "blocked"
+					if r.kind != "BLOCKED" {
+						kind = "nonterm"
+					}
+					v := &Violation{Site: r.kind, Msg: r.msg, Kind: kind, Model: m, Nondets: append([]Nondet{}, c.nondets...)}
+					for _, n := range c.nondets {
+						v.Values = append(v.Values, renderModelValue(n, m[n.Term.ID]))
+					}
+					res.Witness = v
+				}
+			}
 		case targetPanic:
 			res.End = "PANIC"
 			res.Msg = toString(r.v)
@@ -472,6 +487,13 @@ func (p *Program) Run(rc RunConfig) *RunResult {
 				if pr.End == "ENGINE-ERROR" {
 					if len(res.EngineErrs) < 5 {
 						res.EngineErrs = append(res.EngineErrs, pr.Msg)
+					}
+				}
+				if w := pr.Witness; w != nil {
+					key := w.Kind + "|" + w.Site
+					res.ViolCount[key]++
+					if res.ViolCount[key] <= 1 {
+						res.Witnesses = append(res.Witnesses, w)
 					}
 				}
 				if v := pr.Violation; v != nil {
